@@ -18,7 +18,7 @@ pub const RATIO_LIMIT: f64 = 12.0;
 pub const ABS_FLOOR: f64 = 0.5;
 pub const CPU_CAP: u64 = 60;
 
-pub const SHAPES: [&str; 11] = ["lines-with-range-mappings", "one-line-segments", "names", "sources-with-contents", "text-and-tokens", "index-sections", "hermes-scopes", "equal-positions", "sourceroot-absolute-sources", "index-of-hermes-equal-scopes", "hermes-equal-scopes"];
+pub const SHAPES: [&str; 13] = ["lines-with-range-mappings", "one-line-segments", "names", "sources-with-contents", "text-and-tokens", "index-sections", "hermes-scopes", "equal-positions", "sourceroot-absolute-sources", "index-of-hermes-equal-scopes", "hermes-equal-scopes", "long-source-name-and-tokens", "long-name-and-tokens"];
 
 fn cpu_now() -> f64 {
     let mut ts = libc::timespec { tv_sec: 0, tv_nsec: 0 };
@@ -126,6 +126,17 @@ pub fn document(shape: &str, n: usize) -> String {
             "{{\"version\":3,\"sourceRoot\":\"/srv/app/root\",\"sources\":[{}],\"names\":[],\"mappings\":\"{}\"}}",
             list(n, &|k| format!("\"/abs/m{}/s{k}.js\"", k % 89)),
             toks(n, 100, "AAAA", "CCAA")
+        ),
+        // one source name (or one name) whose length grows with the number of tokens that use it
+        "long-source-name-and-tokens" => format!(
+            "{{\"version\":3,\"sources\":[\"a.js\",\"{}\"],\"names\":[\"f\"],\"mappings\":\"{}\"}}",
+            "dir/".repeat(n / 8),
+            toks(n, 100, "ACAAA", "CAACA")
+        ),
+        "long-name-and-tokens" => format!(
+            "{{\"version\":3,\"sources\":[\"a.js\"],\"names\":[\"f\",\"{}\"],\"mappings\":\"{}\"}}",
+            "name".repeat(n / 8),
+            toks(n, 100, "AAAAC", "CAACA")
         ),
         // a Hermes map whose function map has very many scopes starting at one position, and as
         // many unnamed tokens whose original position is exactly that one; top level and as the
